@@ -204,7 +204,7 @@ def run(ctx):
     quick = ctx.tier == "quick"
     rng = ctx.rng("gen")
     cases = []
-    for i in range(30 if quick else 500):
+    for i in range(30 if quick else 160):
         spec, fam = family(rng)
         cases.append({"spec": spec, "family": fam, "policy": rng.choice(["random", "fail_last", "fail_last", "fail_first", "fail_batch", "fail_batch"])})
     ctx.rule = ("gated workflows (4 hand-written families + random C03 graphs without shared-origin fan-in, <=10 jobs) with 1-2 "
